@@ -137,6 +137,21 @@ func c16Script(ctx *core.Ctx, idx int) core.Result {
 		raw = append(raw, []string{"zq = \"abc\\\n\"", "write(\"x\\\n\\\n\" + \"|\")", "zq = \"l1\\\\\\\n\" + \"t\"", "write(\"a\\\n\\\\\")"}[r.Intn(4)])
 		raw = append(raw, "write(\"<m>\")", "write(\"<n>\")")
 	}
+	if r.Chance(1, 6) {
+		// continuation lines of a multi-line string that start with an escaped quote, with brackets behind it; a
+		// carriage return in front of the line break inside a string; a line far longer than any line buffer
+		switch r.Intn(4) {
+		case 0:
+			raw = append(raw, "zq = \"a\n\\\" {\nb\"", "write(toa(#zq))")
+		case 1:
+			raw = append(raw, "zq = \"x\n\\\"w\\\" [ ;\ny\"", "write(toa(#zq))")
+		case 2:
+			raw = append(raw, "zq = \"ab\r\ncd\"", "write(toa(#zq))")
+		default:
+			raw = append(raw, "zq = \""+strings.Repeat("k", r.Range(66000, 90000))+"\"", "write(toa(#zq))")
+		}
+		raw = append(raw, "write(\"<o>\")")
+	}
 	// a script that ends, without a final line break, in a line of a single character (the closing brace of a block)
 	endsInBrace := r.Chance(1, 5)
 	if endsInBrace {
@@ -233,18 +248,23 @@ func c16Script(ctx *core.Ctx, idx int) core.Result {
 	if inproc != pf.Stdout {
 		return fail("mode-equivalence", fmt.Sprintf("file mode printed %q, entering the statements one by one prints %q", trunc(pf.Stdout, 400), trunc(inproc, 400)))
 	}
-	// REPL mode: the same text piped in
-	pr := calcrun.RunCalc(bin, nil, []byte(script.String()+"\n"), "", 20*time.Second)
-	if pr.TimedOut {
-		return core.Result{Verdict: core.Inconclusive, Reason: "watchdog (repl mode)"}
+	// REPL mode: the same text piped in. Not for texts the line editor itself changes or chokes on: it turns a
+	// carriage return into a line break, and it needs ten seconds and more for a line of 64 KiB
+	if strings.Contains(script.String(), "\r") || len(script.String()) > 60000 {
+		res.Tag("script:no-repl-leg")
+	} else {
+		pr := calcrun.RunCalc(bin, nil, []byte(script.String()+"\n"), "", 20*time.Second)
+		if pr.TimedOut {
+			return core.Result{Verdict: core.Inconclusive, Reason: "watchdog (repl mode)"}
+		}
+		if pr.Exit != 0 {
+			return fail("exit-status", fmt.Sprintf("REPL mode exited %d, stderr %q", pr.Exit, trunc(pr.Stderr, 300)))
+		}
+		if pr.Stdout != wantRepl {
+			return fail("mode-equivalence", fmt.Sprintf("REPL printed %q, expected %q", trunc(pr.Stdout, 500), trunc(wantRepl, 500)))
+		}
+		res.Add("repl_runs", 1)
 	}
-	if pr.Exit != 0 {
-		return fail("exit-status", fmt.Sprintf("REPL mode exited %d, stderr %q", pr.Exit, trunc(pr.Stderr, 300)))
-	}
-	if pr.Stdout != wantRepl {
-		return fail("mode-equivalence", fmt.Sprintf("REPL printed %q, expected %q", trunc(pr.Stdout, 500), trunc(wantRepl, 500)))
-	}
-	res.Add("repl_runs", 1)
 	// -eval of one statement at a time on fresh processes is only possible for self-contained
 	// statements: take the statements up to the first one and check it alone
 	first := texts[0]
